@@ -203,13 +203,38 @@ def run_cases(ctx, n, with_model=True):
         model_check(ctx, cases, res)
 
 
+def run_trainable(ctx):
+    """what make_private accepts must be trainable; what Opacus cannot train must be refused up front"""
+    r = ctx.rng
+    cases = [{'layer': k, 'seed': r.randint(0, 10**5), 'trainable_probe': True} for k in ('gru', 'rnn', 'bigru', 'lstm', 'linear', 'conv_seq')]
+    res = vlib.run_impl('validator_runs.py', {'trainable': cases}, timeout=1800)['trainable']
+    for c, rr in zip(cases, res):
+        ctx.case(c, nontrivial=True, kind='accepted-is-trainable/' + c['layer'])
+        judge_trainable(ctx, c, rr)
+    ctx.traces += len(cases)
+
+
+def judge_trainable(ctx, c, rr):
+    if rr.get('error'):
+        ctx.fail('validator-harness-error', rr['error'], c)
+    elif rr.get('mp') == 'ok' and rr.get('step') != 'ok':
+        ctx.fail('accepts-untrainable:' + {'bigru': 'gru'}.get(c['layer'], c['layer']),
+                 'make_private (hooks mode) accepted a model with nn.%s (validate: %s) but the first DP step raises: %s' % (
+                     {'gru': 'GRU', 'bigru': 'GRU', 'rnn': 'RNN', 'lstm': 'LSTM'}.get(c['layer'], c['layer']), rr.get('validate'), rr.get('step')), c)
+    elif rr.get('mp') == 'ok' and not rr.get('moved'):
+        ctx.fail('accepted-layer-not-trained', 'make_private accepted the model but a DP step left some parameters unchanged', c)
+    elif c['layer'] == 'lstm' and rr.get('mp') == 'ok':
+        ctx.fail('accepts-unsupported:lstm', 'make_private accepted nn.LSTM', c)
+
+
 def run(ctx, gen_status):
     vlib.check_property_file(ctx, 'C15', gen_status, GENS)
     run_cases(ctx, ctx.n(60, 1500))
+    run_trainable(ctx)
 
 
 def search(ctx):
-    if all(f['key'].startswith('accepts-coupling:') for f in ctx.failures) and not ctx.broken:
+    if all(f['key'].startswith('accepts-coupling:') or f['key'].startswith('accepts-untrainable:') for f in ctx.failures) and not ctx.broken:
         return
     run_cases(ctx, 200, with_model=False)
 
@@ -217,8 +242,11 @@ def search(ctx):
 def replay_case(ctx, failure):
     c = failure['case']
     n0 = len(ctx.failures)
-    rr = vlib.run_impl('validator_runs.py', {'cases': [c]})['results'][0]
-    judge(ctx, c, rr)
+    if c.get('trainable_probe'):
+        judge_trainable(ctx, c, vlib.run_impl('validator_runs.py', {'trainable': [c]})['trainable'][0])
+    else:
+        rr = vlib.run_impl('validator_runs.py', {'cases': [c]})['results'][0]
+        judge(ctx, c, rr)
     known = {k['key'] for k in vlib.load_known() if k['property'] == 'C15'}
     new = [f for f in ctx.failures[n0:] if f['key'] not in known]
     return not new, new or 'holds'
